@@ -1,10 +1,10 @@
-import PnVerif.Model.Access
+import PnVerif.Model.Scs
 import PnVerif.Spec.InBounds
 /-
   Helper lemmas for C15: characterisation of the checker's loops, exact vs 64-bit arithmetic,
   row-major offsets, write footprints.
 -/
-namespace PnVerif.Access
+namespace PnVerif.Scs
 open PnVerif.Spec.InBounds
 
 theorem mul_ge_self {a s : Int} (ha : 0 ≤ a) (hs : 1 ≤ s) : a ≤ a * s := by
@@ -631,4 +631,4 @@ theorem writeAll_outside (xsz : Nat) : ∀ (offs : List Nat) (f : File) (data : 
     have hn : ¬ (off ≤ p ∧ p < off + xsz) := by omega
     simp only [hn, if_false]
 
-end PnVerif.Access
+end PnVerif.Scs
